@@ -67,14 +67,23 @@ pub async fn exec(f: u32, a: &Args) -> Args {
                 1 => vec![Sha256Digest::new(h)],
                 2 => vec![other(1)],
                 3 => vec![other(1), other(2), Sha256Digest::new(h), other(3)],
-                _ => vec![other(1), other(2), other(3)],
+                4 => vec![other(1), other(2), other(3)],
+                // near misses: digests related to the right one byte-wise (reversed, rotated,
+                // complemented, the same mask on two bytes, one bit in the last byte)
+                5 => { let mut x = h; x.reverse(); vec![Sha256Digest::new(x)] }
+                6 => { let mut x = h; x.rotate_left(1); vec![Sha256Digest::new(x), other(4)] }
+                7 => { let mut x = h; for b in x.iter_mut() { *b = !*b; } vec![Sha256Digest::new(x)] }
+                8 => { let mut x = h; x[3] ^= 0x5a; x[17] ^= 0x5a; vec![other(1), Sha256Digest::new(x)] }
+                _ => { let mut x = h; x[31] ^= 0x80; vec![Sha256Digest::new(x)] }
             };
+            let set_out: Vec<Vec<u64>> = hashes.iter().map(|d| b2a(d.as_ref())).collect();
             if corrupt == 1 {
                 der.truncate(der.len() / 2);
             } else if corrupt == 2 {
                 let n = der.len();
                 der[n - 5] ^= 0x55; // signature bits: still parses, hash differs
             }
+            let presented_hash = sha(&der);
             let v = ServerHashVerification::new(hashes);
             let r = v.verify_server_cert(
                 &CertificateDer::from(der),
@@ -92,7 +101,9 @@ pub async fn exec(f: u32, a: &Args) -> Args {
                 Err(E::InvalidCertificate(CE::BadEncoding)) => 4,
                 Err(_) => 9,
             };
-            vec![vec![1, code], vec![(p_nb - BASE + bias) as u64, (p_na - BASE + bias) as u64, p_ec as u64, p_p256 as u64]]
+            let mut out = vec![vec![1, code], vec![(p_nb - BASE + bias) as u64, (p_na - BASE + bias) as u64, p_ec as u64, p_p256 as u64], b2a(&presented_hash)];
+            out.extend(set_out);
+            out
         }
         // digest: format then parse (both formats, and FromStr)
         711 => {
@@ -221,7 +232,8 @@ pub fn oracle(f: u32, a: &Args, out: &Args) -> Option<(&'static str, String)> {
             let bias = 1i64 << 40;
             let now = a[0][3] as i64 - bias;
             let (nb, na) = (out[1][0] as i64 - bias, out[1][1] as i64 - bias);
-            let hash_in = (a[0][4] == 1 || a[0][4] == 3) && a[0][5] == 0;
+            // membership is exact equality of all 32 bytes with the SHA-256 of the presented certificate
+            let hash_in = out[3..].iter().any(|d| *d == out[2]);
             let want = a[0][5] != 1 && hash_in && nb <= now && now <= na && (na - nb) <= 14 * 86400 && out[1][2] == 1 && out[1][3] == 1;
             if (out[0][1] == 0) != want {
                 return Some(("C10", format!("pinning accepted={} but conditions hold={} (alg {}, window {}..{}, now {}, hash mode {})", out[0][1] == 0, want, a[0][0], nb, na, now, a[0][4])));
@@ -288,7 +300,7 @@ pub fn generate(rng: &mut Rng, thorough: bool, which: &str) -> Vec<Case> {
                 for (nb, na) in &windows {
                     let nows: Vec<i64> = vec![nb - 1, *nb, nb + 1, na - 1, *na, na + 1, (nb + na) / 2];
                     for now in nows {
-                        for mode in 0..5u64 {
+                        for mode in 0..10u64 {
                             if !thorough && !(mode == 1 || (now + mode as i64) % 3 == 0) { continue; }
                             cs.push(Case::new(701, vec![vec![alg, b(*nb), b(*na), b(now), mode, 0]], "pin-matrix"));
                         }
@@ -353,7 +365,9 @@ pub fn generate(rng: &mut Rng, thorough: bool, which: &str) -> Vec<Case> {
         "identity" => {
             let lists: Vec<Vec<&str>> = vec![
                 vec!["localhost"], vec!["localhost", "127.0.0.1", "::1"], vec!["example.com", "www.example.com"], vec!["10.0.0.1"],
-                vec!["2001:db8::1", "a.b"], vec![], vec!["*.example.com"], vec!["bad name with spaces"], vec!["\u{e9}.example"], vec![""],
+                vec!["2001:db8::1", "a.b"], vec![], vec!["*.example.com"],
+                vec!["::ffff:192.0.2.7"], vec!["::ffff:192.0.2.7", "192.0.2.7"], vec!["::ffff:c000:207", "0:0:0:0:0:0:0:1", "::"], vec!["2001:DB8:0:0:0:0:0:1", "fe80::1"],
+                vec!["0.0.0.0", "255.255.255.255", "localhost.", "LOCALHOST"], vec!["bad name with spaces"], vec!["\u{e9}.example"], vec![""],
             ];
             for l in &lists {
                 let mut args = vec![vec![0u64]];
